@@ -68,34 +68,37 @@ Definition ts_of_day (d : Z) : tstamp := {| utc_us := day_us d; off_s := 0 |}.
 Definition n_BBB_inout : str := s_BBB ++ [32; 73; 110; 45; 79; 117; 116].
 Definition n_BBB_tax : str := s_BBB ++ [32; 84; 97; 120].
 
-(** F3 on the generator as published: the acquired-lot timestamp cell of BBB's only gain/loss row (the lot of
-    2020-01-01, hidden by the window) links to row 4 of "BBB In-Out" -- and that row shows the lot of 2021-02-01 *)
-Lemma f3_stale_link :
-  cell_at (sheet_named n_BBB_tax (full_report only_clear_missing wenv w_f3)) 22 12 = PLink n_BBB_inout 4 (PTs (ts_of_day D2020_01_01)) /\
-  cell_at (sheet_named n_BBB_inout (full_report only_clear_missing wenv w_f3)) 3 1 = PTs (ts_of_day D2021_02_01).
-Proof. split; vm_compute; reflexivity. Qed.
-(** with the dictionary emptied per asset the hidden lot carries no link *)
-Lemma f3_repaired :
-  cell_at (sheet_named n_BBB_tax (full_report fixed_flags wenv w_f3)) 22 12 = PTs (ts_of_day D2020_01_01) /\
-  cell_at (sheet_named n_BBB_tax (full_report fixed_flags wenv w_f3)) 22 5 = PLink n_BBB_inout 10 (PTs (ts_of_day D2021_03_01)) /\
-  cell_at (sheet_named n_BBB_inout (full_report fixed_flags wenv w_f3)) 9 1 = PTs (ts_of_day D2021_03_01).
-Proof. repeat split; vm_compute; reflexivity. Qed.
+(** layout-independent observations on a report: a linked timestamp cell of the Tax sheet whose target row of the
+    In-Out sheet shows (column 1) another timestamp; number of linked cells *)
+Definition is_link (w : cellw) : bool := match cw_val w with PLink _ _ _ => true | _ => false end.
+Definition link_mismatch (io : list cellw) (w : cellw) : bool :=
+  match cw_val w with
+  | PLink _ r (PTs t) => match cell_at io (r - 1) 1 with PTs t' => negb (utc_us t =? utc_us t') | _ => true end
+  | _ => false
+  end.
+Definition has_stale_link (r : fres (list sheetw)) (tax io : str) : bool :=
+  existsb (link_mismatch (sheet_named io r)) (sheet_named tax r).
+Definition n_links (r : fres (list sheetw)) (sheet : str) : nat := length (filter is_link (sheet_named sheet r)).
+Definition shows_int (z : Z) (w : cellw) : bool := match cw_val w with PInt v => v =? z | _ => false end.
 
-(** F2: the unguarded (asset, year) lookup fails; guarded, the Summary line is written without a link *)
+(** F3 on the generator as published: in "BBB Tax" the acquired-lot cells of BBB's only gain/loss row (the lot of
+    2020-01-01, input row 4, hidden by the window) link to the row of "BBB In-Out" that AAA's visible lot (also input
+    row 4) was written on -- and that row of BBB's sheet shows the lot of 2021-02-01 *)
+Lemma f3_stale_link : has_stale_link (full_report only_clear_missing wenv w_f3) n_BBB_tax n_BBB_inout = true.
+Proof. vm_compute. reflexivity. Qed.
+(** with the dictionary emptied per asset: the event cells are still linked (to rows showing the event), the hidden lot's are not *)
+Lemma f3_repaired :
+  has_stale_link (full_report fixed_flags wenv w_f3) n_BBB_tax n_BBB_inout = false /\
+  (0 < n_links (full_report fixed_flags wenv w_f3) n_BBB_tax < n_links (full_report only_clear_missing wenv w_f3) n_BBB_tax)%nat.
+Proof. split; [vm_compute; reflexivity|vm_compute; lia]. Qed.
+
+(** F2: the unguarded (asset, year) lookup fails; guarded, the Summary line of 2021 is written without links *)
 Lemma f2_key_error : full_report {| ff_clears := true; ff_guarded := false; ff_single_by_value := true |} wenv w_f2 = RKeyError.
 Proof. vm_compute. reflexivity. Qed.
-Lemma f2_repaired : cell_at (sheet_named gen_full_msg_summary (full_report fixed_flags wenv w_f2)) 3 0 = PInt 2021.
-Proof. vm_compute. reflexivity. Qed.
-
-(** F10 *)
-Lemma f10_key_error : legend_methods as_published [(2019, Hifo)] = RKeyError.
-Proof. reflexivity. Qed.
-
-(** F12: 22 holders overflow the Tax sheet, 21 fit (whatever the three flags) *)
-Lemma f12_overflow fl : full_report fl wenv (w_holders 22) = RIndexError.
-Proof. destruct fl as [[|] [|] [|]]; vm_compute; reflexivity. Qed.
-Lemma f12_fits : exists l, full_report fixed_flags wenv (w_holders 21) = ROk l /\ length l = 4%nat.
-Proof. eexists. split; [vm_compute; reflexivity|reflexivity]. Qed.
+Lemma f2_repaired :
+  existsb (shows_int 2021) (sheet_named gen_full_msg_summary (full_report fixed_flags wenv w_f2)) = true /\
+  n_links (full_report fixed_flags wenv w_f2) gen_full_msg_summary = 0%nat.
+Proof. split; vm_compute; reflexivity. Qed.
 
 (** non-vacuity of the hypotheses of the link theorems: asset BBB of the F3 input (from-date 2021-01-01) *)
 Definition x_BBB : option actx :=
@@ -105,7 +108,7 @@ Definition x_BBB : option actx :=
   end.
 Example link_hypotheses_nonvacuous : exists x, x_BBB = Some x /\
   vis_rows x = [3; 9] /\ all_rows (ac_txs x) = [4; 3; 9] /\
-  shown_at x (TOut (w_out 9 D2021_03_01)) 9 /\ shown_at x (TIn (w_in 3 D2021_02_01 0)) 3 /\
+  (exists r, shown_at x (TOut (w_out 9 D2021_03_01)) r) /\ (exists r, shown_at x (TIn (w_in 3 D2021_02_01 0)) r) /\
   ~ In (w_in 4 D2020_01_01 0) (cd_ins (ac_c x)) /\ In (w_in 4 D2020_01_01 0) (t_ins (ac_txs x)) /\
   map g_year (cd_gls (ac_c x)) = [2021] /\
   compute (rp_period w_f3) (rp_from w_f3) (rp_to w_f3) false (rp_exchanges w_f3) (rp_holders w_f3) (ac_txs x)
@@ -113,7 +116,8 @@ Example link_hypotheses_nonvacuous : exists x, x_BBB = Some x /\
 Proof.
   eexists. split; [vm_compute; reflexivity|].
   split; [vm_compute; reflexivity|]. split; [vm_compute; reflexivity|].
-  split; [exists 0%nat; split; vm_compute; reflexivity|]. split; [exists 0%nat; split; vm_compute; reflexivity|].
+  split; [eexists; exists 0%nat; split; [vm_compute; reflexivity|reflexivity]|].
+  split; [eexists; exists 0%nat; split; [vm_compute; reflexivity|reflexivity]|].
   split; [vm_compute; intros [H|[]]; discriminate|]. split; [left; reflexivity|].
   split; vm_compute; reflexivity.
 Qed.
